@@ -531,3 +531,39 @@ func H_c10_girth7sparse_t() {
 	rt.Check(Girth(vgSparse(adj)) == want, "Girth wrong (sparse)")
 	rt.Reach("end")
 }
+
+// c10CyclesDense: NumberOfCycles on every labelled graph on 6 vertices with at least 9
+// edges (solver-pruned family; many fundamental cycles per block), dense and sparse.
+func c10CyclesDense(n, minM int) {
+	bits := make([]byte, n*(n-1)/2)
+	cnt := byte(0)
+	for k := range bits {
+		bits[k] = rt.Bit("e")
+		cnt += bits[k]
+	}
+	rt.Assume(cnt >= byte(minM))
+	for k := range bits {
+		bits[k] = rt.ConcreteByte(bits[k])
+	}
+	adj := vgAdj(n, bits)
+	cyc, _, _ := c10Counts(adj)
+	var eg EditableGraph
+	if rt.Choice("rep", 2) == 0 {
+		eg = vgDense(adj)
+	} else {
+		eg = vgSparse(adj)
+	}
+	var nc []int
+	p, msg := rt.Panics(func() { nc = NumberOfCycles(eg) })
+	rt.Check(!p, "NumberOfCycles panicked: "+msg)
+	if !p {
+		rt.Check(len(nc) == n+1, "NumberOfCycles: wrong length")
+		for l := 0; l <= n && l < len(nc); l++ {
+			rt.Check(nc[l] == cyc[l], "NumberOfCycles wrong")
+		}
+	}
+	rt.Reach("end")
+}
+
+func H_c10_cycles6_q() { c10CyclesDense(6, 10) }
+func H_c10_cycles6_t() { c10CyclesDense(6, 7) }
